@@ -50,6 +50,15 @@ fn dec(bytes: &[u8], opts: Option<u8>) -> Res {
     }
 }
 
+/// the full result, error list included (the default entry point must EQUAL version-only decoding)
+fn dec_full(bytes: &[u8], opts: Option<u8>) -> Option<run::MsgOut> {
+    let (r, obs) = run::decode_msg(ReaderKind::R2a, bytes, opts, false);
+    if !obs.mon.unwrap().violations.is_empty() {
+        return None;
+    }
+    r.ok()
+}
+
 fn case_json(bytes: &[u8]) -> Value {
     json!({"kind":"flagrow","hex":hex(bytes)})
 }
@@ -156,6 +165,14 @@ fn check_row(ctx: &mut Ctx, bytes: &[u8]) {
     let d = dec(bytes, None);
     if d.as_ref() != Some(&row[spec::OPT_VERSION as usize]) {
         viol(ctx, "try_read-differs-from-version-only", format!("try_read gives {:?}, try_read_validate(version only) gives {:?}", d, row[2]));
+    } else {
+        // ... including the errors of a rejection
+        let (a, b) = (dec_full(bytes, None), dec_full(bytes, Some(spec::OPT_VERSION)));
+        if let (Some(Err(ea)), Some(Err(eb))) = (&a, &b) {
+            if ea != eb {
+                viol(ctx, "try_read-errors-differ-from-version-only", format!("try_read rejects with {ea:?}, try_read_validate(version only) with {eb:?}"));
+            }
+        }
     }
     let n_ok = row.iter().filter(|r| r.is_ok()).count();
     if row[7].is_ok() {
